@@ -4,7 +4,8 @@
     syntax/std_eval.go   evalExpr (//eval.value), contextualEval, parseEvalConfig
     syntax/expr_package.go  PackageExpr.Eval          (the fall-back to StdScope() included)
     syntax/expr_import.go   ImportExpr.Eval
-    syntax/compile.go    compilePackage (import branch), syntax/parse.go + parse_macro.go (macro expansion)
+    syntax/compile.go    compilePackage (import branch: `resolve`), syntax/parse.go + parse_macro.go (`expand`: macro
+                         expansion and the bind hook, at parse time, before the rest is compiled)
     syntax/std.go        createFunc2 (partial application of natives)
   over the λ-core of rel (Function.Eval, Closure.CallAll, BinExpr.Eval for calls, DotExpr, tuples).
   Every function takes fuel and decreases it at every call, so all of them are structurally recursive.
@@ -53,40 +54,61 @@ def getAttr (t : Val) (k : String) : Res :=
 variable (W : World)
 
 mutual
-/-- pc.Parse + pc.CompileExpr: macros are expanded and imports resolved while compiling.  `ps` is the parser's
-parse-time scope (the top of `rscopes`): it starts as `baseScope(ctx)`, every `let` pushes its bindings
-(the `bind` hook) and nothing is ever popped; macro expressions are evaluated in it. -/
-def compile : Nat → Ctx → Val → Ast → CRes
+/-- pc.Parse: the source is parsed as a whole before anything else is compiled; macros are expanded while
+parsing.  `ps` is the parser's parse-time scope (the top of `rscopes`): it starts as `baseScope(ctx)`, every
+`let` pushes its bindings (the `bind` hook, which compiles the bound expression — resolving ITS imports — on
+the spot) and nothing is ever popped; macro expressions are compiled and evaluated in it.  Import syntax
+elsewhere is left for `resolve`. -/
+def expand : Nat → Ctx → Val → Ast → CRes
   | 0, _, _, _ => (none, [])
   | n+1, c, ps, a =>
     match a with
-    | .lam x b => (compile n c ps b).map (.lam x)
-    | .app f x => (compile n c ps f).bind fun f' ps1 => (compile n c ps1 x).map (.app f')
+    | .lam x b => (expand n c ps b).map (.lam x)
+    | .app f x => (expand n c ps f).bind fun f' ps1 => (expand n c ps1 x).map (.app f')
     | .letE x v b =>
-      (compile n c ps v).bind fun v' ps1 =>
-      -- the `bind` hook: `.` ↦ ExprClosure(rscopes.top, expr), then the pattern's name ↦ the same expression
-      let ps2 := (ps1.bind "." (.thunk ps1 v')).bind x (.thunk ps1 v')
-      (compile n c ps2 b).map (.letE x v')
-    | .tcons k v r => (compile n c ps v).bind fun v' ps1 => (compile n c ps1 r).map (.tcons k v')
-    | .dot e k => (compile n c ps e).map (.dot · k)
+      (expand n c ps v).bind fun v1 ps1 =>
+      -- the `bind` hook: pc.CompileExpr on the parsed value, then `.` ↦ ExprClosure(rscopes.top, expr) and the
+      -- pattern's name ↦ the same expression
+      (resolve n c v1).bindC fun v2 =>
+      let ps2 := (ps1.bind "." (.thunk ps1 v2)).bind x (.thunk ps1 v2)
+      (expand n c ps2 b).map (.letE x v1)
+    | .tcons k v r => (expand n c ps v).bind fun v' ps1 => (expand n c ps1 r).map (.tcons k v')
+    | .dot e k => (expand n c ps e).map (.dot · k)
+    | .mac f =>
+      -- parse.go "ast" external + unpackMacro: the macro expression is compiled and evaluated at parse time,
+      -- in the parse-time scope as it is after the macro expression itself was parsed
+      (expand n c ps f).bind fun f1 ps1 =>
+      (resolve n c f1).bindC fun f2 =>
+      (run n c ps1 grammarRef).bindC fun _ =>
+      (run n c ps1 f2).bindC fun fv =>
+      (call n c fv .data).bindC fun v => (some (.lit v, ps1), [])
+    | a => (some (a, ps), [])
+
+/-- pc.CompileExpr on a parsed expression: import syntax is resolved (compilePackage, PKGPATH branch) -/
+def resolve : Nat → Ctx → Ast → RRes
+  | 0, _, _ => (none, [])
+  | n+1, c, a =>
+    match a with
+    | .lam x b => (resolve n c b).map (.lam x)
+    | .app f x => (resolve n c f).bind fun f' => (resolve n c x).map (.app f')
+    | .letE x v b => (resolve n c v).bind fun v' => (resolve n c b).map (.letE x v')
+    | .tcons k v r => (resolve n c v).bind fun v' => (resolve n c r).map (.tcons k v')
+    | .dot e k => (resolve n c e).map (.dot · k)
     | .imp p =>
-      -- compilePackage, PKGPATH branch
       if W.fixes.importReject && c.sandboxed then (none, []) else
       match lookupFile W.fs p with
       | none => (none, [.imported p])
-      | some .bytes => (some (.imported (.lit .data), ps), [.imported p])
+      | some .bytes => (some (.imported (.lit .data)), [.imported p])
       | some (.code src) =>
-        -- Compile(ctx, filename, data): a parse of its own, starting from baseScope(ctx)
-        let r := compile n c (parseScope0 W c) src
-        (r.1.map fun x => (.imported x.1, ps), .imported p :: r.2)
-    | .mac f =>
-      -- parse.go "ast" external + unpackMacro: the macro expression is evaluated at parse time, in the
-      -- parse-time scope as it is after the macro expression itself was parsed
-      (compile n c ps f).bind fun f' ps1 =>
-      (run n c ps1 grammarRef).bindC fun _ =>
-      (run n c ps1 f').bindC fun fv =>
-      (call n c fv .data).bindC fun v => (some (.lit v, ps1), [])
-    | a => (some (a, ps), [])
+        -- Compile(ctx, filename, data): a parse of its own, starting from baseScope(ctx), then CompileExpr
+        let e := expand n c (parseScope0 W c) src
+        match e.1 with
+        | none => (none, .imported p :: e.2)
+        | some x =>
+          let r2 := resolve n c x.1
+          (r2.1.map .imported, .imported p :: (e.2 ++ r2.2))
+    | .mac _ => (none, [])                     -- no macro survives parsing
+    | a => (some a, [])
 
 /-- Expr.Eval -/
 def run : Nat → Ctx → Val → Ast → Res
@@ -188,11 +210,14 @@ def evalWithScope : Nat → Ctx → Ast → Val → Res
     let c1 : Ctx := match s.get "//" with
       | some l => { c with lib := some l }
       | none => c
-    match compile n { c1 with compiling := true } (parseScope0 W c1) a with
+    match expand n { c1 with compiling := true } (parseScope0 W c1) a with
     | (none, l) => (none, l)
-    | (some (a', _), l) =>
-      let r := run n { c1 with compiling := false } s a'
-      (r.1, l ++ r.2)
+    | (some (a1, _), l) =>
+      match resolve n { c1 with compiling := true } a1 with
+      | (none, l2) => (none, l ++ l2)
+      | (some a2, l2) =>
+        let r := run n { c1 with compiling := false } s a2
+        (r.1, l ++ l2 ++ r.2)
 end
 
 /-- the context of a top-level evaluation -/
